@@ -1,6 +1,10 @@
 import Sigc.Model
 import Sigc.Lemmas.Basic
 import Sigc.Lemmas.StepIter
+import Sigc.Lemmas.StepIter2
+import Sigc.Lemmas.StepIter3
+import Sigc.Lemmas.StepIter4
+import Sigc.Lemmas.StepIter5
 /-!
 # C13 — emission results: last slot's value, or the accumulator's verdict
 
@@ -218,6 +222,33 @@ example : succId exImpl.cells 4 = some 5 := bidirectional_converse exImpl.cells 
 theorem bidirectional_iff (cells : List Cell) (k n : Nat) (hnd : (cells.map (·.id)).Nodup) :
     succId cells k = some n ↔ predId cells n = some k :=
   ⟨predId_of_succId cells k n hnd, succId_of_predId cells k n hnd⟩
+
+/-- in a duplicate-free list `++` is "index + 1" and `--` is "index − 1": a forward walk from `begin()`
+    visits the cells in list order, a walk from the end backwards visits them in reverse order -/
+theorem bidirectional_index (cells : List Cell) (hnd : (cells.map (·.id)).Nodup) (j : Nat) (h : j + 1 < cells.length) :
+    succId cells (cells[j]'(by omega)).id = some (cells[j+1]).id ∧
+    predId cells (cells[j+1]).id = some (cells[j]'(by omega)).id :=
+  ⟨succId_getElem cells hnd j h, predId_getElem cells hnd j h⟩
+
+example : succId exImpl.cells 3 = some 4 ∧ predId exImpl.cells 4 = some 3 :=
+  bidirectional_index exImpl.cells (by decide) 1 (by decide)
+
+/-- `begin()` has no predecessor and the end marker (last cell) no successor -/
+theorem walk_ends (c : Cell) (t : List Cell) (m : Cell) :
+    (((c :: t).map (·.id)).Nodup → predId (c :: t) c.id = none) ∧
+    (((t ++ [m]).map (·.id)).Nodup → succId (t ++ [m]) m.id = none) :=
+  ⟨predId_head c t, succId_last t m⟩
+
+/-- the hypothesis of the `bidirectional` theorems holds for the list an emission walks (cells at
+    emission start ++ fresh end marker) whenever it held for the signal's list and the allocator is
+    ahead of its ids (the `Inv` clause "ids unique and below `next`") -/
+theorem range_has_unique_ids (s : St) (i : Nat) (im : Impl) (hnd : (im.cells.map (·.id)).Nodup)
+    (hfresh : ∀ c ∈ im.cells, c.id < s.next) :
+    ∃ im', aget (emitPrologue s i im).impls i = some im' ∧ (im'.cells.map (·.id)).Nodup :=
+  prologue_nodup s i im hnd hfresh
+
+example : ∃ im', aget exSt1.impls 1 = some im' ∧ (im'.cells.map (·.id)).Nodup :=
+  range_has_unique_ids exSt 1 exImpl (by decide) (by decide)
 
 /-- moves stay inside the list -/
 theorem moves_stay_in_list (cells : List Cell) (k n : Nat) :
@@ -438,5 +469,235 @@ example : (emitImpl 10 exProg exSt .A (some 1) 5 .rev).map (·.2.2) = some 265 :
 example : (emitImpl 10 exProg exSt .A (some 1) 5 .never).map (·.2.2) = some 4 := by decide +kernel
 example : (emitImpl 10 exProg exSt .A (some 1) 5 (.stop 60)).map (·.2.2) = some 75 := by decide +kernel
 example : (emitImpl 10 exProg exSt .I (some 1) 5 .sum).map (·.2.2) = some 95 := by decide +kernel
+
+/-! ## never dereferenced ⇒ never invoked -/
+
+/-- an accumulator that never dereferences (`never`) invokes no slot and cannot throw: for every list,
+    state, program and fuel the state is unchanged up to the model's error flag -/
+theorem never_dereferenced_never_invoked (f : Nat) (P : Prog) (s : St) (i : Nat) (it : IterBuf) (m arg k r : Nat)
+    (s' : St) (o : Outcome) (v : Nat) (h : accLoop f P s i it m arg 3 k r = some (s', o, v)) :
+    o = .ok ∧ (s' = s ∨ ∃ msg, s' = s.fail msg) :=
+  accLoop_never f P s i it m arg k r s' o v h
+
+example : (accLoop 9 exProg exSt1 1 { pos := 2 } 6 5 3 0 0).map (fun x => (x.2.1, x.2.2, x.1.trace.length))
+    = some (.ok, 4, 0) := by decide +kernel
+
+/-- a scripted walk that only moves (`i`, `x`, never `d`/`c`) invokes nothing and returns the initial sum -/
+theorem walk_without_deref_invokes_nothing (f : Nat) (P : Prog) (s : St) (i : Nat) (it : IterBuf) (first m arg : Nat)
+    (ops : List Char) (r : Nat) (s' : St) (o : Outcome) (v : Nat) (hd : 'd' ∉ ops) (hc : 'c' ∉ ops)
+    (h : walkLoop f P s i it first m arg ops r = some (s', o, v)) :
+    o = .ok ∧ v = r ∧ (s' = s ∨ ∃ msg, s' = s.fail msg) :=
+  walkLoop_no_deref f P s i it first m arg ops r s' o v hd hc h
+
+example : (walkLoop 9 exProg exSt1 1 { pos := 2 } 2 6 5 ['i', 'i', 'x', 'i'] 0).map (fun x => (x.2.1, x.2.2, x.1.trace.length))
+    = some (.ok, 0, 0) := by decide +kernel
+
+/-! ## the call log only grows and the nesting depth is restored (every function of the interpreter) -/
+
+/-- every function of the interpreter, whatever the slots do (re-entrant emission, exceptions, …), only
+    *adds* events to the call log, all at the current depth or deeper, and restores the depth
+    (`Ext`, mutual induction on fuel over all eleven functions: `allExt`) -/
+theorem log_only_grows (f : Nat) : AllExt f := allExt f
+
+/-- what the driver runs: a whole top-level program only extends the log and ends at the depth it
+    started at (0 from the initial state) -/
+theorem run_log_only_grows (f : Nat) (P : Prog) (s : St) (ls : List Line) (s' : St) (h : runTop f P s ls = some s') :
+    s'.depth = s.depth ∧ ∃ new, s'.trace = new ++ s.trace ∧ ∀ e ∈ new, s.depth ≤ evDepth e :=
+  runTop_ext f P s ls s' h
+
+example : (runTop 12 exProgB exStB [{ text := "emit 0 5", op := .emit 0 5 .sum false }]).map (fun x => (x.depth, x.trace.length))
+    = some (0, 3) := by decide +kernel
+
+/-- instance for an emission -/
+theorem emit_extends_log (f : Nat) (P : Prog) (s : St) (fl : Flavour) (impl : Option Nat) (arg : Nat) (strat : Strat)
+    (s' : St) (o : Outcome) (v : Nat) (h : emitImpl f P s fl impl arg strat = some (s', o, v)) :
+    s'.depth = s.depth ∧ ∃ new, s'.trace = new ++ s.trace ∧ ∀ e ∈ new, s.depth ≤ evDepth e :=
+  (allExt f).emit P s fl impl arg strat s' o v h
+
+example : (emitImpl 10 exProgB exStB .I (some 1) 5 .sum).map (fun x => (x.1.depth, x.1.trace.length)) = some (0, 2) := by
+  decide +kernel
+
+/-- no operation that runs no user code touches the log or the depth -/
+theorem simple_ops_keep_log (s s' : St) (op : Op) (r : String) (h : stepSimple s op = some (s', r)) :
+    s'.trace = s.trace ∧ s'.depth = s.depth :=
+  stepSimple_td s s' op r h
+
+example : (stepSimple exStB (.blockC 0 true)).isSome = true ∧
+    ∀ s' r, stepSimple exStB (.blockC 0 true) = some (s', r) → s'.trace = exStB.trace :=
+  ⟨by decide +kernel, fun _ _ h => (simple_ops_keep_log _ _ _ _ h).1⟩
+
+/-- a user functor returns `resultOf fid arg` whatever its body does (also if it throws), logs its call
+    at the current depth before anything its body logs (all deeper), and restores the depth -/
+theorem user_functor_value_and_log (f : Nat) (P : Prog) (s : St) (fn : Fun) (fid arg : Nat)
+    (s' : St) (o : Outcome) (v : Nat) (hu : userFid fn = some fid) (h : invokeFun f P s fn arg = some (s', o, v)) :
+    v = resultOf fid arg ∧ s'.depth = s.depth ∧
+    ∃ new, s'.trace = new ++ (Event.call s.depth fid arg :: s.trace) ∧ ∀ e ∈ new, s.depth < evDepth e :=
+  invoke_user_trace f P s fn fid arg s' o v hu h
+
+example : (invokeFun 5 exProgB exStB (.leaf 7 []) 5).map (fun x => (x.2.2, x.1.depth, x.1.trace.length)) = some (75, 0, 2) := by
+  decide +kernel
+
+/-! ## `last_value` -/
+
+/-
+Intended statement (DESIGN §5): "`emitValue` returns the result of the last `call` of that emission,
+or the default if there was none — with re-entrant flag changes."
+
+Proved in full generality in relational form (`last_value_loop`, `last_value`): for every state,
+program, fuel — bodies may block, disconnect, connect, re-emit, throw — the loop is an `EmitRun`, i.e.
+at each turn the cell is invoked iff it is callable *at that moment*, and the value returned is the
+value returned by the last functor invoked (`calls.getLast`), or the initial/default value if none was.
+
+The reading in the call log (`last_value_in_log_partial`) needs the hypothesis that every functor the
+emission itself invoked is a user functor (`Fun.leaf` or `Fun.owner`, `isUser`): only user functors log a `call` event with a
+value determined by that event.  What is missing for arbitrary functors: a slot held by value in an
+adaptor (`Fun.nest`) that is blocked/empty returns 0 without logging anything, and `make_slot()` of
+another signal (`Fun.fwd`) returns that signal's emission result (for an accumulated signal a sum),
+whose `call` events are logged at the *same* depth; so for such functors the value is not a function
+of the newest `call` event.  (For them `last_value` still says: the value of the last invoked functor.)
+-/
+
+/-- the non-accumulating loop: every terminating run, from every state, is an `EmitRun` — each cell is
+    invoked iff callable at its turn, in list order, until the end marker or an exception — and the
+    value it returns is the value returned by the last functor it invoked, or the initial result `r`
+    if it invoked none -/
+theorem last_value_loop (f : Nat) (P : Prog) (s : St) (i cur m arg r : Nat) (s' : St) (o : Outcome) (v : Nat)
+    (h : emitLoop f P s i cur m arg r = some (s', o, v)) :
+    ∃ calls, EmitRun P i m arg s cur r calls s' o v ∧ v = ((calls.map (·.2)).getLast?).getD r := by
+  obtain ⟨calls, hr⟩ := emitLoop_run f P s i cur m arg r s' o v h
+  exact ⟨calls, hr, hr.value⟩
+
+example : ∃ s' calls, EmitRun exProg 1 6 5 exSt1 2 0 calls s' .ok 95 ∧ 95 = ((calls.map (·.2)).getLast?).getD 0 := by
+  have h : (emitLoop 9 exProg exSt1 1 2 6 5 0).map (fun x => (x.2.1, x.2.2)) = some (.ok, 95) := by decide +kernel
+  cases hr : emitLoop 9 exProg exSt1 1 2 6 5 0 with
+  | none => rw [hr] at h; simp at h
+  | some res =>
+    obtain ⟨s', o, v⟩ := res
+    rw [hr] at h; simp at h; obtain ⟨rfl, rfl⟩ := h
+    obtain ⟨calls, hrun, hv⟩ := last_value_loop _ _ _ _ _ _ _ _ _ _ _ hr
+    exact ⟨s', calls, hrun, hv⟩
+
+/-- any `EmitRun` returns the value of its last call, or the initial result -/
+theorem run_value (P : Prog) (i m arg : Nat) (s : St) (cur r : Nat) (calls : List (Fun × Nat)) (s' : St) (o : Outcome) (v : Nat)
+    (h : EmitRun P i m arg s cur r calls s' o v) : v = ((calls.map (·.2)).getLast?).getD r := h.value
+
+example : (95 : Nat) = (([(Fun.leaf 7 [], 75), (Fun.leaf 9 [], 95)].map (·.2)).getLast?).getD 0 :=
+  run_value _ _ _ _ _ _ _ _ _ _ _ exRun
+
+/-- an exception that leaves the loop is the last invoked functor's -/
+theorem run_exception_is_last_call (P : Prog) (i m arg : Nat) (s : St) (cur r : Nat) (calls : List (Fun × Nat)) (s' : St) (v : Nat)
+    (h : EmitRun P i m arg s cur r calls s' .exc v) : calls ≠ [] := h.exc_nonempty
+
+/-- `emit()` of a non-accumulated signal: for an empty list nothing happens and the default value 0 is
+    returned; otherwise prologue, one `EmitRun` from the first cell present at emission start to the
+    fresh end marker, starting from the default value, epilogue; the value returned is the value of the
+    last functor invoked, or the default 0 if none was; and if all functors invoked by this emission
+    are user functors, that value is `resultOf` of the newest call logged at the emission's depth
+    during the emission -/
+theorem last_value (f : Nat) (P : Prog) (s : St) (fl : Flavour) (i arg : Nat) (strat : Strat) (im : Impl)
+    (s' : St) (o : Outcome) (v : Nat) (hacc : fl.isAcc = false) (hi : aget s.impls i = some im)
+    (h : emitImpl (f+1) P s fl (some i) arg strat = some (s', o, v)) :
+    ∃ calls,
+      ((im.cells = [] ∧ calls = [] ∧ s' = s ∧ o = .ok) ∨
+       (im.cells ≠ [] ∧ ∃ s2, EmitRun P i s.next arg (emitPrologue s i im) (emitFirst s im) 0 calls s2 o v ∧
+          s' = (emitEpilogue s2 i s.next o v).1)) ∧
+      v = ((calls.map (·.2)).getLast?).getD 0 ∧
+      ((∀ p ∈ calls, isUser p.1 = true) →
+        s'.depth = s.depth ∧
+        ∃ new, s'.trace = new ++ s.trace ∧ (∀ e ∈ new, s.depth ≤ evDepth e) ∧
+          v = (match lastCallAt s.depth new with
+               | some (fid, a) => resultOf fid a
+               | none => 0)) :=
+  emitImpl_plain_run f P s fl i arg strat im s' o v hacc hi h
+
+/-- functor 7 blocks the slot of cell 4 while the emission runs: the value is that of functor 7 -/
+example : (emitImpl 10 exProgB exStB .I (some 1) 5 .sum).map (fun x => (x.2.1, x.2.2)) = some (.ok, 75) := by
+  decide +kernel
+
+example : ∃ s', ∃ calls : List (Fun × Nat), emitImpl 10 exProgB exStB .I (some 1) 5 .sum = some (s', .ok, 75) ∧
+    75 = ((calls.map (·.2)).getLast?).getD 0 := by
+  have h : (emitImpl 10 exProgB exStB .I (some 1) 5 .sum).map (fun x => (x.2.1, x.2.2)) = some (.ok, 75) := by
+    decide +kernel
+  cases hr : emitImpl 10 exProgB exStB .I (some 1) 5 .sum with
+  | none => rw [hr] at h; simp at h
+  | some res =>
+    obtain ⟨s', o, v⟩ := res
+    rw [hr] at h; simp at h; obtain ⟨rfl, rfl⟩ := h
+    obtain ⟨calls, _, hv, _⟩ := last_value 9 exProgB exStB .I 1 5 .sum exImpl s' _ _ rfl rfl hr
+    exact ⟨s', calls, rfl, hv⟩
+
+/-- the log reading of `last_value` for a run whose invoked functors are all user functors
+    (see the comment above for what is missing for `nest`/`fwd` functors) -/
+theorem last_value_in_log_partial (P : Prog) (i m arg : Nat) (s : St) (cur r : Nat) (calls : List (Fun × Nat))
+    (s' : St) (o : Outcome) (v : Nat) (h : EmitRun P i m arg s cur r calls s' o v)
+    (hleaf : ∀ p ∈ calls, isUser p.1 = true) :
+    s'.depth = s.depth ∧
+    ∃ new, s'.trace = new ++ s.trace ∧ (∀ e ∈ new, s.depth ≤ evDepth e) ∧
+      v = (match lastCallAt s.depth new with
+           | some (fid, a) => resultOf fid a
+           | none => r) :=
+  h.trace_leaf hleaf
+
+example : ∃ new, ((exSt1.log (.call 0 7 5)).log (.call 0 9 5)).trace = new ++ exSt1.trace ∧
+    (∀ e ∈ new, exSt1.depth ≤ evDepth e) ∧
+    95 = (match lastCallAt exSt1.depth new with
+          | some (fid, a) => resultOf fid a
+          | none => 0) :=
+  (last_value_in_log_partial _ _ _ _ _ _ _ _ _ _ _ exRun (by decide)).2
+
+/-- what the driver prints: an `emit` line (outside try/catch) that completes normally logs, as the
+    newest event and at the line's own depth, `text => r=<v>` where `v` is the value `emitImpl`
+    returned — by `last_value` the value of the last slot invoked, or 0 -/
+theorem emit_line_reports_value (f : Nat) (P : Prog) (s : St) (text : String) (g arg : Nat) (strat : Strat)
+    (h0 : Handle) (s' : St) (hg : aget s.G g = some h0)
+    (hd : ¬ s.depth ≥ P.maxdepth) (hs : ¬ s.steps + 1 > P.maxsteps)
+    (h : execLine (f+3) P s { text := text, op := .emit g arg strat false } = some (s', .ok)) :
+    ∃ s1 v, emitImpl (f+1) P { s with steps := s.steps + 1 } h0.fl h0.impl arg strat = some (s1, .ok, v) ∧
+      s' = collect (s1.log (.res s.depth text (showRes h0.fl.isVoid v))) :=
+  execLine_emit_ok f P s text g arg strat h0 s' hg hd hs h
+
+example : (execLine 12 exProgB exStB { text := "emit 0 5", op := .emit 0 5 .sum false }).map (fun x => x.1.trace.head?.map renderEvent)
+    = some (some "0 emit 0 5 => r=75") := by decide +kernel
+
+/-! ## the same statements about the specification `S` (`Sigc.Spec`) -/
+
+/-- `S`: a signal without a list returns the default value and does nothing -/
+theorem spec_emit_without_list (f : Nat) (P : Prog) (s : Spec.LSt) (fl : Flavour) (arg : Nat) (strat : Strat) :
+    Spec.emitSig (f+1) P s fl none arg strat = some (s, .ok, 0) :=
+  spec_emit_none f P s fl arg strat
+
+example : Spec.emitSig 1 exProg {} .A none 3 .sum = some ({}, .ok, 0) := spec_emit_without_list 0 _ _ _ _ _
+
+/-- `S`: an already-invoked position is not invoked again -/
+theorem spec_deref_once (f : Nat) (P : Prog) (s : Spec.LSt) (i : Nat) (snap : List Nat) (it : Spec.It) (arg : Nat)
+    (hinv : it.invoked = true) : Spec.deref (f+1) P s i snap it arg = some (s, .ok, it) :=
+  spec_deref_invoked f P s i snap it arg hinv
+
+example : Spec.deref 1 exProg {} 1 [2, 3] { pos := 0, invoked := true, buf := 7 } 5
+    = some ({}, .ok, { pos := 0, invoked := true, buf := 7 }) := spec_deref_once 0 _ _ _ _ _ _ rfl
+
+/-- `S`: an entry that is gone, invalid or blocked at that moment is not invoked -/
+theorem spec_deref_skips (f : Nat) (P : Prog) (s : Spec.LSt) (i : Nat) (snap : List Nat) (it : Spec.It) (arg cid : Nat)
+    (hp : snap[it.pos]? = some cid) (hnc : specCallable s i cid = none) :
+    Spec.deref (f+1) P s i snap it arg = some (s, .ok, it) :=
+  spec_deref_not_callable f P s i snap it arg cid hp hnc
+
+/-- `S`: the value of a non-accumulated emission is the value of the last invoked functor or the
+    initial (default) one; at most one invocation per entry of the snapshot -/
+theorem spec_last_value (f : Nat) (P : Prog) (s : Spec.LSt) (i : Nat) (snap : List Nat) (arg r : Nat)
+    (s' : Spec.LSt) (o : Outcome) (v : Nat) (h : Spec.turns f P s i snap arg r = some (s', o, v)) :
+    ∃ calls, TurnsRun P i arg s snap r calls s' o v ∧ v = ((calls.map (·.2)).getLast?).getD r ∧
+      calls.length ≤ snap.length := by
+  obtain ⟨calls, hr⟩ := spec_turns_run f P s i snap arg r s' o v h
+  exact ⟨calls, hr, hr.value, hr.length_le⟩
+
+example : ∃ calls, TurnsRun exProg 1 5 {} [2, 3] 9 calls {} .ok 9 ∧ 9 = ((calls.map (·.2)).getLast?).getD 9 ∧
+    calls.length ≤ 2 :=
+  spec_last_value 3 exProg {} 1 [2, 3] 5 9 {} .ok 9 (by
+    rw [spec_turns_unfold, show specCallable {} 1 2 = none from rfl]
+    simp only
+    rw [spec_turns_unfold, show specCallable {} 1 3 = none from rfl]
+    simp only
+    rw [Spec.turns])
 
 end Sigc.C13
